@@ -3,8 +3,9 @@
    harness carries a line-by-line Python transcription (harness/c06_term.py)
    and both are run on the same token streams on every check.
 
-   Rows are unbounded below; row 0 is the first row owned by the renderer
-   (the origin).  A cell holds a glyph, the pen it was drawn with, and a kind
+   Rows are unbounded below AND above; row 0 is the first row owned by the
+   renderer (the origin) - an inline prompt sits somewhere in the scrollback,
+   so moving up from row 0 reaches rows the renderer does not own.  A cell holds a glyph, the pen it was drawn with, and a kind
    (0 narrow, 1 left half of a wide glyph, 2 right half).  Pens are opaque
    numbers (the SGR escape string, numbered by the harness; 0 is ESC[0m).
    Erasing fills with blanks in the CURRENT pen (background-colour-erase), so
@@ -77,15 +78,18 @@ Definition erase_down (t : term) : grid :=
   let g0 := erase_line t in
   fun y x => if cy t <? y then blank (pen t) else g0 y x.
 
+(* ECMA-48: a cursor-motion parameter 0 means the default, 1 *)
+Definition pn (n : Z) : Z := if n =? 0 then 1 else n.
+
 Definition tstep (W : Z) (t : term) (k : tok) : term :=
   match k with
   | TText g w => match g with [] => t | _ => put W t g w end
   | TCR => mkterm (tgrid t) 0 (cy t) (pen t) (aw t) (cvis t) false (undef t)
   | TLF => mkterm (tgrid t) (cx t) (cy t + 1) (pen t) (aw t) (cvis t) false (undef t)
-  | TCUU n => mkterm (tgrid t) (cx t) (Z.max 0 (cy t - n)) (pen t) (aw t) (cvis t) false (undef t)
-  | TCUD n => mkterm (tgrid t) (cx t) (cy t + n) (pen t) (aw t) (cvis t) false (undef t)
-  | TCUF n => mkterm (tgrid t) (Z.min (W - 1) (cx t + n)) (cy t) (pen t) (aw t) (cvis t) false (undef t)
-  | TCUB n => mkterm (tgrid t) (Z.max 0 (cx t - n)) (cy t) (pen t) (aw t) (cvis t) false (undef t)
+  | TCUU n => mkterm (tgrid t) (cx t) (cy t - pn n) (pen t) (aw t) (cvis t) false (undef t)
+  | TCUD n => mkterm (tgrid t) (cx t) (cy t + pn n) (pen t) (aw t) (cvis t) false (undef t)
+  | TCUF n => mkterm (tgrid t) (Z.min (W - 1) (cx t + pn n)) (cy t) (pen t) (aw t) (cvis t) false (undef t)
+  | TCUB n => mkterm (tgrid t) (Z.max 0 (cx t - pn n)) (cy t) (pen t) (aw t) (cvis t) false (undef t)
   | TBS => mkterm (tgrid t) (Z.max 0 (cx t - 1)) (cy t) (pen t) (aw t) (cvis t) false (undef t)
   | TEL => mkterm (erase_line t) (cx t) (cy t) (pen t) (aw t) (cvis t) (pend t) (undef t)
   | TED => mkterm (erase_down t) (cx t) (cy t) (pen t) (aw t) (cvis t) (pend t) (undef t)
